@@ -137,6 +137,21 @@ Proof.
   split; intro H; [rewrite Hhi by assumption|rewrite Hlo by assumption]; reflexivity.
 Qed.
 
+Lemma wire_saturation : forall t1 t2 t3 t4,
+  (in_i64 (t2 - t1) -> in_i64 (t3 - t4) ->
+     ((t2 - t1) + (t3 - t4) >= 2 ^ 63 ->
+        wire_offset (T t1) (T t2) (T t3) (T t4) = Z.quot (2 ^ 63 - 1) 2) /\
+     ((t2 - t1) + (t3 - t4) < - 2 ^ 63 ->
+        wire_offset (T t1) (T t2) (T t3) (T t4) = Z.quot (- 2 ^ 63) 2)) /\
+  (in_i64 (t4 - t1) -> in_i64 (t3 - t2) ->
+     ((t4 - t1) - (t3 - t2) >= 2 ^ 63 ->
+        wire_delay (T t1) (T t2) (T t3) (T t4) = 2 ^ 63 - 1) /\
+     ((t4 - t1) - (t3 - t2) < - 2 ^ 63 ->
+        wire_delay (T t1) (T t2) (T t3) (T t4) = - 2 ^ 63)).
+Proof.
+  intros. split; intros; [apply wire_offset_saturated|apply wire_delay_saturated]; assumption.
+Qed.
+
 (* the halving truncates toward zero: the doubled offset differs from the
    sum by at most one unit, never exceeds it in magnitude, and an exact half is exact *)
 Lemma quot2_spec : forall s,
@@ -148,7 +163,7 @@ Proof.
   assert (Hsgn : 0 <= Z.rem s 2 * s) by (apply Z.rem_sign_mul; lia).
   repeat split; try nia.
   intro He. apply Z.even_spec in He. destruct He as [k ->].
-  rewrite Z.mul_comm, Z.quot_mul by lia. lia.
+  replace (2 * k) with (k * 2) by lia. rewrite Z.quot_mul by lia. lia.
 Qed.
 
 (* end to end: the measurement handed to the inner controller by one
